@@ -525,6 +525,11 @@ class Gen:
             fs = self.foreign_same(et, cur[1 + i])
             if fs is not None:
                 return ['setf', i, fs[0], fs[1]]
+        if k in ('list', 'vec', 'bl', 'bv') and r.random() < 0.12:
+            # a negative index through the [] operator (read, then written with a valid element)
+            ln = len(cur) - 1
+            i = r.choice([1, 1, ln if ln else 1, ln + 1, ln + 3, 8, 256])
+            return ['setneg', i, self.val(t[1], 4) if k in ('list', 'vec') else r.choice('01')]
         if k == 'list':
             ln = len(cur) - 1
             c = []
@@ -647,6 +652,8 @@ class Gen:
 
     def spellings(self, t):
         k = kind(t)
+        if is_basic(t) and t != 'bool':
+            return ['views', 'py', 'wide']
         if is_basic(t) or k in ('cont', 'union'):
             return ['views', 'py']
         out = ['views', 'py', 'gen', 'tuple']
@@ -1000,6 +1007,10 @@ class StoreGen:
                 if not is_basic(vw['t']):
                     self.views.append(dict(t=vw['t'], v=vw['v'], hook=None, kids=False))
                     ops.append(['copy', i])
+            elif c < 0.36 and cand_child:
+                # a throw-away copy of a held view gets an element replaced by an equal-root SUMMARY of it
+                i, key = r.choice(cand_child)
+                ops.append(['tmpsum', i, key])
             elif c < 0.45:
                 ops.append(['snap', r.randrange(len(self.views))])
             else:
